@@ -1,5 +1,5 @@
 From Coq Require Import Extraction ExtrOcamlBasic NArith ZArith.
-From Storage Require Import Base.Bytes Lang.Tokens Lang.Lexer Lang.Regex Lang.LexerFull Lang.BoolGrammar Lang.Listener.
+From Storage Require Import Base.Bytes Lang.Tokens Lang.Lexer Lang.Regex Lang.LexerFull Lang.BoolGrammar Lang.Listener Lang.ForeignBlank.
 Extraction Language OCaml.
 Definition force_types : nat * N * Z := (O, 0%N, 0%Z).
-Extraction "c10_model.ml" force_types lex_full lex_skeleton toks_of drops_of compile fixed_prec seg_text.
+Extraction "c10_model.ml" force_types lex_full lex_skeleton toks_of drops_of compile fixed_prec seg_text blank_like_foreign starts_no_token ends_no_token is_ws.
